@@ -16,7 +16,7 @@ import gen_toml as G
 PROP = "C14"
 COQ_PROPS = "Props/C14.v"
 COQ_PROPS_EXTRA = ["Props/C14spans.v"]
-THEOREMS = ["see Props/C14.v"]
+THEOREMS = ["Props/C14spans.v (21) + Props/C14.v (4): every stored span lies within the source on character boundaries, is exactly the consumed text for values and keys, re-parses to the same key / data, is nested in its section / container; C14_explicit_table_span: every table with a header of its own, every array-of-tables element and the root has a span; nothing is left and nothing fails after into_mut (names in coverage.theorem_names)"]
 RULE = ("valid abstract documents with multi-byte characters next to tokens, BOM, CRLF, comments and whitespace around every token, "
         "nested containers, dotted keys, header / array-of-tables layouts; documents rendered for the Spanned struct family in "
         "every layout (inline, dotted, header); non-trivial = document with >= 3 spans")
